@@ -69,6 +69,8 @@ def ev(e, env, opaque):
                 return a * b
             if isinstance(e.op, ast.FloorDiv):
                 return a // b
+            if isinstance(e.op, ast.Div):
+                return a / b
             if isinstance(e.op, ast.Mod):
                 return a % b
         except ZeroDivisionError:
